@@ -183,7 +183,7 @@ impl Campaign for C20c {
             let second = g.chance(1, 3);
             let mut last = 0u64;
             for ci in 0..n {
-                let open_at = if second && ci >= n / 2 { *g.pick(&[SEC, 4 * SEC, 5 * SEC, 6 * SEC]) } else { g.below(2) * MS };
+                let open_at = if second && ci >= n / 2 { *g.pick(&[SEC, 4 * SEC, 5 * SEC, 6 * SEC]) } else { MS + g.below(2) * MS };
                 last = last.max(open_at);
                 let (c, id) = one_request_conn(&mut g, ci, open_at, false, false);
                 sc.conns.push(c);
@@ -191,6 +191,9 @@ impl Campaign for C20c {
             }
             sc.receivers = loop_receivers(g.usize(1, 2), Dispatch::Inline);
             sc.driver = vec![
+                // the baseline (accept thread + the pool's fixed minimum) is measured before any client arrives
+                DriverStep::Settle,
+                DriverStep::Snapshot("baseline".into()),
                 DriverStep::SleepUntil(last + 4_900 * MS),
                 DriverStep::Settle,
                 DriverStep::Snapshot("idle_4900ms".into()),
@@ -239,13 +242,14 @@ impl Campaign for C20c {
         if sub_b {
             if let Some(s) = snap(out, "idle_5001ms") {
                 let live: Vec<_> = s.threads.iter().filter(|t| t.0 == "lib" && t.1 != "Finished").collect();
-                if live.len() > 5 {
+                let baseline = snap(out, "baseline").map(|b| b.threads.iter().filter(|t| t.0 == "lib" && t.1 != "Finished").count()).unwrap_or(5);
+                if live.len() > baseline {
                     v.violations.push(Violation {
                         clause: "C20.reclaim".into(),
                         signature: "surplus idle workers still alive 5.001 s after the last activity".into(),
                         detail: format!(
-                            "{} library threads are alive {} ns after the last client activity (baseline: 1 accept thread + 4 workers); peak was {} threads in the run: {}",
-                            live.len(), 5_001 * MS, out.report.max_threads, describe_blocked(s)
+                            "{} library threads are alive {} ns after the last client activity (baseline measured before the first client: {} threads); peak was {} threads in the run: {}",
+                            live.len(), 5_001 * MS, baseline, out.report.max_threads, describe_blocked(s)
                         ),
                     });
                 }
